@@ -133,9 +133,13 @@ theorem C28_inv_step (cfg : Cfg) (hc : cfg.covers = true) (s : St) (op : Op) (hs
   | touch => exact ⟨h1, by simp [step], h3⟩
   | assign v => exact ⟨by simpa [Op.argsW, step] using ha, by simp [step], h3⟩
   | flush => exact (doFlush_inv s ⟨h1, h2, h3⟩).1
-  | reload =>
-      have hf := (doFlush_inv s ⟨h1, h2, h3⟩).1
-      exact C28_load_wrapped cfg _ hf.2.2
+  | reload v =>
+      simp only [step]
+      split
+      · rename_i hv
+        simp only [Bool.and_eq_true] at hv
+        exact C28_load_wrapped cfg v hv.1
+      · exact ⟨h1, h2, h3⟩
 
 /-- `C28_wrapped_preserved`: Inv_wrapped after any operation (arbitrary path, arbitrary mutator, arguments under the guard) -/
 theorem C28_wrapped_preserved (cfg : Cfg) (hc : cfg.covers = true) (s : St) (op : Op) (hs : Inv s) (ha : op.argsW cfg = true) :
@@ -179,6 +183,20 @@ theorem C28_error_unchanged (cfg : Cfg) (s : St) (p : List Step) (m : LMut) (e :
   split
   · rename_i hm; simp [hm] at h
   · rfl
+
+/-- the observation point of the property: when the session ends and a new session reads the value (`v` = what the database
+    returns), `v` is the value the old session saw (as JSON, up to the order of object keys) and it is fully wrapped again -/
+theorem C28_new_session (cfg : Cfg) (s : St) (hs : Inv s) (v : T) (hok : (step cfg s (.reload v)).2 = none) :
+    sameJson v (ser s.doc) = true ∧ (step cfg s (.reload v)).1.doc = make cfg v ∧ Inv (step cfg s (.reload v)).1 := by
+  have hf := doFlush_inv s hs
+  have hdoc : (doFlush s).doc = s.doc := by unfold doFlush; split <;> rfl
+  simp only [step] at hok ⊢
+  split
+  · rename_i hv
+    simp only [Bool.and_eq_true] at hv
+    refine ⟨?_, rfl, C28_load_wrapped cfg v hv.1⟩
+    rw [← hdoc, ← hf.2.1]; exact hv.2
+  · rename_i hv; simp [hv] at hok
 
 /-! ### arbitrary operation sequences -/
 
